@@ -286,13 +286,16 @@ impl Engine for VmEngine {
                 }
                 ops
             },
+            // `return` of a literal whose last encoded byte equals the Return opcode (0x16), with
+            // cards behind it that must not run
+            run("setglobal($67,call($70,[int(#1)])),setglobal($68,call($71,[]))", ",fn($70,[$78],[iftrue(readvar($78),return(int(#1585267068834414634))),setglobal($73,int(#99)),return(int(#0))]),fn($71,[],[return(int(#1585267068834414592)),setglobal($74,int(#98))])"),
             // a card without a value in a value slot pops the EMPTY stack (nil); the run ends with a
             // SetProperty, whose pop_n leaves its operands behind in the slots above the top: the
             // second run on the uncleared machine must still read nil
             vec![
                 "vm new".to_string(),
-                "vm repeat mod([],[fn($6d61696e,[],[setglobal($67,comment($78)),setprop(int(#7),table,int(#0))])],[]) budget=1000".to_string(),
-                "vm repeat mod([],[fn($6d61696e,[],[iftrue(comment($78),setglobal($67,int(#1))),append(int(#9),table)])],[]) budget=1000".to_string(),
+                "vm repeat mod([],[fn($6d61696e,[],[setglobal($67,comment($78)),setprop(int(#7),table,int(#0))])],[]) budget=1000 n=3 clear=0".to_string(),
+                "vm repeat mod([],[fn($6d61696e,[],[iftrue(comment($78),setglobal($67,int(#1))),append(int(#9),table)])],[]) budget=1000 n=3 clear=0".to_string(),
             ],
             // stale slots above the stack height must not be visible after clear: an earlier run
             // leaves 10,20,30 behind (Return with three arguments), the later program reads locals
